@@ -54,6 +54,11 @@ type ModuleStore struct {
 	// this should be the frozen module importlib/_bootstrap.py generated
 	// by Modules/_freeze_importlib.c into Python/importlib.h
 	Importlib *Module
+	// The exception being handled (what a bare raise re-raises).  It is
+	// state of the thread of execution (CPython: tstate->exc_type etc),
+	// not of one frame: a function called from an except clause sees
+	// the exception its caller is handling.
+	ExcInfo ExceptionInfo
 }
 
 func RegisterModule(module *ModuleImpl) {
